@@ -60,7 +60,7 @@ def extra(r):
 
 def run(v, tier, seed, replay):
     seqcheck.run(v, tier, seed, replay, "C06", ["C06"], tree_oracles=["no_panic", "attachments", "tree"], knobs=knobs,
-                 n_quick=(700, 100), n_thorough=(80000, 5000), known=known, extra_cases=extra,
+                 n_quick=(2100, 300), n_thorough=(80000, 5000), known=known, extra_cases=extra,
                  nontrivial=lambda lines, tr: any(r["props"] or r["events"] for _, r in tr.delivered()),
                  assumptions=["order of attachments is compared per record as a multiset; per-route order is a model theorem (C06_park_order, C06_mount_exact)",
                               "side conditions of C06 are respected by the generator: a span is not finished while a scope on it is open, a root not before the other spans of its trace"])
